@@ -100,6 +100,7 @@ func (C17) Events(env world.Env, mm mc.Model) []string {
 			evs = append(evs, "Proof:"+p+":"+id)
 		}
 		evs = append(evs, "ProofCaps:P3:"+id)
+		evs = append(evs, "ProofBad:P1:"+id, "ProofBad:P3:"+id) // a proof that does not verify (a join attempt, if the sender is not listed)
 	}
 	if len(m.Files) > 0 {
 		id := m.Files[0]
@@ -280,7 +281,7 @@ func (C17) Apply(env world.Env, mm mc.Model, ev string) mc.Step {
 		if res.OK() {
 			st.Outcome = "ok"
 		}
-	case "Proof", "ProofCaps":
+	case "Proof", "ProofCaps", "ProofBad":
 		owner, f, start := fileOf(strings.Join(p[2:], "|"))
 		prover := w.A(p[1]).Bech
 		if p[0] == "ProofCaps" { // the prover signs with the capital spelling of its address
@@ -291,6 +292,9 @@ func (C17) Apply(env world.Env, mm mc.Model, ev string) mc.Step {
 			c = pr.ChunkToProve
 		}
 		item, hl := f.proofFor(int(c))
+		if p[0] == "ProofBad" {
+			item = append([]byte("not the chunk: "), item...)
+		}
 		if ok, _ := postProofOK(w, env.Deliver(storagetypes.NewMsgPostProof(prover, f.merkle, owner, start, item, hl, c))); ok {
 			st.Outcome = "ok"
 		}
